@@ -11,7 +11,7 @@ INTERFACES = "L5 sessions of direct statements over scalar and array names of ev
 PROFILES = ["dev"]
 CASE_TIMEOUT = 0.3
 MODEL_CASE_TIMEOUT = 3.0
-RULE = ("sequences of 6-24 direct statements over the names {A,A1,AB,A!,A#,A%,A$,B,B2,F,FX,Z9} as scalars and arrays (1-3 dimensions): "
+RULE = ("sequences of 6-24 direct statements over the names {A,A1,AB,A!,A#,A%,A$,B,B2,F,FX,Z9,B$,AA,ABA,BAB} (names that begin and end with another name included) as scalars and arrays (1-3 dimensions): "
         "assignment of Integer / fractional / out-of-range / string values, reads, DIM, ERASE, DEFINT/DEFSNG/DEFDBL/DEFSTR ranges, SWAP, "
         "CLEAR, subscripts from {-1,0,1,10,11,1.5,\"x\"}; a reference store (typed total map with per-letter defaults, declared bounds, "
         "implicit bound 10) predicts every printed value and error; non-trivial = the sequence contains a DEFtype, DIM/ERASE or SWAP after at "
@@ -19,7 +19,8 @@ RULE = ("sequences of 6-24 direct statements over the names {A,A1,AB,A!,A#,A%,A$
 ASSUMPTIONS = ["values are small integers and halves so that number formatting is not in play (C11 covers it)"]
 EXHAUSTIVE = {"quick": False, "thorough": False}
 
-NAMES = ["A", "A1", "AB", "A!", "A#", "A%", "A$", "B", "B2", "F", "FX", "Z9", "B$"]
+NAMES = ["A", "A1", "AB", "A!", "A#", "A%", "A$", "B", "B2", "F", "FX", "Z9", "B$", "AA", "ABA", "BAB"]
+FAMILIES = [["A", "AA", "ABA", "A1"], ["A", "AB", "AA", "A$"], ["B", "BAB", "B2", "B$"], ["A%", "A", "AA", "A!"]]
 ERR = {"overflow": 6, "type": 13, "subscript": 9, "redim": 10, "illegal": 5}
 
 
@@ -93,16 +94,17 @@ VALUES = [("5", 5), ("2.5", 2.5), ("-3", -3), ("0", 0), ("40000", 40000), ('"s"'
 SUBS = [("-1", None), ("0", 0), ("1", 1), ("10", 10), ("11", 11), ("1.5", 1), ('"x"', "type"), ("3", 3), ("20", 20)]
 
 
-def gen_session(rng):
+def gen_session(rng, names=None, length=None):
+    names = names or NAMES
     ref = Ref()
     tag = {}          # name/key -> type the stored value was converted to
     ref._tag = tag
     stmts = []
     expect = []       # per statement: ("print", text) | ("err", code) | ("none",)
     poisoned = set()  # arrays whose implicit dimensioning happened in a failed access (left unspecified)
-    for _ in range(rng.randint(6, 24)):
+    for _ in range(length or rng.randint(6, 24)):
         r = rng.random()
-        name = rng.choice(NAMES)
+        name = rng.choice(names)
         if r < 0.28:
             lit, v = rng.choice(VALUES)
             stmts.append("%s=%s" % (name, lit))
@@ -206,7 +208,7 @@ def gen_session(rng):
                             del ref.arr[n2][k]
             expect.append(("none",))
         elif r < 0.98:
-            other = rng.choice(NAMES)
+            other = rng.choice(names)
             stmts.append("SWAP %s,%s" % (name, other))
             va, vb = ref.scal.get(name, ref.zero(name)), ref.scal.get(other, ref.zero(other))
             if ref.vtype(name) == ref.vtype(other):
@@ -232,8 +234,15 @@ def gen_session(rng):
 def gen(tier, rng):
     cases = []
     n = 1500 if tier == "quick" else 60000
+    # a quarter of the sessions stay inside one family of names that contain each other (A, AA, ABA, A1 ...): storage keys
+    # are built from the names, so a sloppy key match (prefix, suffix, both) shows as one name's ERASE / DIM / assignment
+    # reaching a neighbour's scalars or elements
     for si in range(n):
-        stmts, expect = gen_session(rng)
+        if si % 4 == 3:
+            fam = rng.choice(FAMILIES)
+            stmts, expect = gen_session(rng, names=fam, length=rng.randint(14, 30))
+        else:
+            stmts, expect = gen_session(rng)
         calls = ["R5000"]
         for s in stmts:
             calls += [sess.E(s), "R5000"]
